@@ -48,7 +48,7 @@ def build_argv(job, ini, ods, outdir):
     if a.get("prefix"):
         argv += ["-p", a["prefix"]]
     argv += list(a.get("extra", []))
-    argv += ["-o", os.path.basename(outdir) if job.get("relative_out") else outdir, ini, ods + ".missing.ods" if job.get("missing_input") else ods]
+    argv += ["-o", os.path.relpath(outdir, os.getcwd()) if job.get("relative_out") else outdir, ini, ods + ".missing.ods" if job.get("missing_input") else ods]
     return argv
 
 
